@@ -218,6 +218,22 @@ def run_case(case, ctx):
     del _steps_seen[:]
     _state['diff'] = None
     x_keep = np.array(x, copy=True)
+    if case['fseed'] % 5 == 1:
+        # an earlier call on an argument of the same shape was aborted because the user function raised after a few evaluations:
+        # whatever it left behind (module-level work arrays) must not move the evaluation points of the call that is judged
+        left = [2 + case['fseed'] % 4]
+
+        def failing(z, _f=make_fun(case)):
+            left[0] -= 1
+            if left[0] < 0:
+                raise RuntimeError('user function failed')
+            return _f(z)
+        ctx.count('earlier_call_aborted_by_an_exception')
+        try:
+            with np.errstate(all='ignore'):
+                getattr(nd, cls)(failing, **kw)(x_call)
+        except Exception:
+            pass
     try:
         with np.errstate(all='ignore'):
             hist = case.get('history')
